@@ -21,6 +21,7 @@ def run(chk):
     r16c(chk)
     r16d(chk)
     r16e(chk)
+    r16f(chk)
 
 
 def eval_append(chk, typ, val, context, prefix, namespaces=None):
@@ -340,3 +341,35 @@ def r16e(chk, rid='R16.e'):
                            'the item is appended when its own nested context is already on top of the stack: it is not counted in the specificity (a::part(x) reports one type selector too few)')
     if n < 2:
         raise AnalysisError(f'only {n} append+push handlers found (2 confirmed by hand: _pseudo, _char "[")')
+
+
+def r16f(chk, rid='R16.f'):
+    chk.rule(rid, 'an id or class selector is written as it was read, decided by evaluation across three modules: the handler New.productions registers for HASH / class tokens is evaluated to see which item type it appends; that item is then written by CSSSerializer.do_css_Selector through the source\'s own Out.append and CSSSerializer._hash, under minimizeColorHash on and off: the text is unchanged - the colour shortening of the serializer, which goes by item type, must not reach names that merely look like colours (#aabbcc)')
+    from sa.absint import Evaluator, Raised, Record
+
+    from .c06 import out_model
+    from .callbacks import new_productions
+
+    sm = chk.repo.mod(SEL)
+    serm = chk.repo.mod(SER)
+    handlers = {cb.key: cb.target for cb in new_productions(chk.repo)}
+    for key, val in (('HASH', '#aabbcc'), ('HASH', '#AABBCC'), ('HASH', '#abc'), ('class', '.aabbcc')):
+        h = handlers.get(key)
+        if h is None or isinstance(h, ast.Lambda):
+            raise AnalysisError(f'New.productions: no handler for {key}')
+        appended = []
+        me = Record(context=[''], selector=Record(_tokenvalue=lambda tok, normalize=False: tok[1], _type=lambda tok: tok[0]), wellformed=True, _log=Record(error=lambda *a, **k: None))
+        me.append = lambda seq, v, typ=None, token=None: appended.append((v, typ))
+        res = Evaluator(h, intrinsics={'self._log.error': me._log.error}, module=sm, cls='New').run(self=me, expected='type_selector universal HASH class attrib pseudo negation ', seq=[], token=(key if key == 'HASH' else 'class', val, 1, 1))
+        if isinstance(res, Raised) or len(appended) != 1:
+            chk.ob(rid, SEL, f'New.{h.name}', f'{val} is appended as one item', False, f'{res!r}, appended {appended}')
+            continue
+        v, typ = appended[0]
+        for mini in (True, False):
+            prefs = Record(spacer=' ', selectorCombinatorSpacer=' ', keepComments=True, indentClosingBrace=False, listItemSpacer=' ', propertyNameSpacer=' ', paranthesisSpacer=' ', lineSeparator='\n', minimizeColorHash=mini)
+            ser = Record(prefs=prefs, _level=0)
+            hashfn = serm.get('CSSSerializer._hash')
+            ser._hash = lambda x, ser=ser: Evaluator(hashfn, module=serm, cls='CSSSerializer').run(self=ser, val=x, type_='HASH') if 'type_' in [a.arg for a in hashfn.args.args] else Evaluator(hashfn, module=serm, cls='CSSSerializer').run(**{'self': ser, [a.arg for a in hashfn.args.args][1]: x})
+            selector = Record(wellformed=True, seq=[Record(type=typ, value=v)], _namespaces=Record(get=lambda k, d=None: None, prefixForNamespaceURI=lambda u: 'p'))
+            got = Evaluator(serm.get('CSSSerializer.do_css_Selector'), intrinsics={'Out': lambda s: out_model(chk, s), 'cssutils': Record(_ANYNS='ANY')}, module=serm, cls='CSSSerializer').run(self=ser, selector=selector)
+            chk.ob(rid, SEL, f'New.{h.name}', f'{val} (item type {typ!r}) is written unchanged with minimizeColorHash={mini}', got == val, f'written as {got!r}: the selector no longer reparses to itself, and list de-duplication by text confuses it with another selector')
